@@ -106,13 +106,8 @@ def read_rows(src: str) -> Tuple[List[Dict[str, Any]], List[str]]:
                 bad.append(ast.unparse(n))
             if isinstance(n, ast.Attribute) and n.attr in ("update", "pop", "popitem", "clear", "setdefault", "__setitem__", "__delitem__"):
                 bad.append(ast.unparse(n))
-    # the normalisation add_function_mapping applies must be the one the rows above assume
-    if fdef is not None:
-        body = ast.unparse(fdef)
-        want = ["functions_to_replace[python_name] = cpp_function(cpp_name", "terminal(return_type)", "include_files if type(include_files) is list else [include_files]"]
-        for w in want:
-            if w not in body:
-                bad.append("add_function_mapping body: expected `" + w + "`")
+    # (what add_function_mapping does with its arguments is not read here: the rows are compared with
+    #  functions_to_replace as it is at run time, see check_table)
     return rows, bad
 
 
@@ -1003,12 +998,12 @@ def nospace(t: str) -> str:
 def canon_model(m: Dict[str, Any]) -> Dict[str, Any]:
     if "ok" in m:
         return {"text": nospace(m["ok"]["text"]), "declTy": m["ok"]["ty"], "incs": sorted(m["ok"]["incs"])}
-    return {"err": m.get("err")}
+    return {"refused": True}  # which exception class a refusal has is not this property's business (C09)
 
 
 def canon_impl(o: Dict[str, Any]) -> Dict[str, Any]:
     if "err" in o:
-        return {"err": o["err"]}
+        return {"refused": True} if o["err"] != "Unreadable" else {"unreadable": o.get("msg")}
     return {"text": nospace(o["text"]), "declTy": o["declTy"], "incs": sorted(o["incs"])}
 
 
@@ -1139,14 +1134,17 @@ def check_resolver(ctx, g) -> None:
         def strip(m):
             if m.get("row"):
                 return {"row": {k: v for k, v in m["row"].items() if k != "py"}}
-            return m
+            return {"row": None}  # left alone or refused: the class of a refusal is not this property's business
+
+        if "err" in im or "err" in m1:
+            ctx.count("resolver:refusal-class-" + ("agrees" if im.get("err") == m1.get("err") else "differs"))
 
         ctx.count("resolver:" + ("replaced" if im.get("row") else ("error" if "err" in im else "left-alone")))
         ctx.case({"resolve": n}, bool(im.get("row")) or "err" in im or n in readme, {"resolve_call_of": n, "implementation": im, "model": m1} if n in ("abs", "round") else None)
-        if strip(m1) != im:
-            ctx.disagreement("find_known_functions vs findKnown (generated eval scope)", {"name": n}, strip(m1), im)
-        if strip(m2) != im:
-            ctx.disagreement("find_known_functions vs fncName/lookup (binding computed by the harness)", {"name": n}, strip(m2), im)
+        if strip(m1) != strip(im):
+            ctx.disagreement("find_known_functions vs findKnown (generated eval scope)", {"name": n}, strip(m1), strip(im))
+        if strip(m2) != strip(im):
+            ctx.disagreement("find_known_functions vs fncName/lookup (binding computed by the harness)", {"name": n}, strip(m2), strip(im))
         if n in readme and not in_defect_exclusion(call_of(n) if n in PARAMS else ("call", n, [])):
             # Spec on the implementation: the documented name reaches a row that is its namesake
             if not im.get("row"):
@@ -1206,6 +1204,8 @@ def run(ctx):
             ctx.count("g++:sample-points", len(r["numeric"]["samples"]))
         ctx.case({"b": r["backend"], "src": r["src"]}, len(called(r["expr"])) > 0 and r["model"].get("documented", False),
                  {"backend": r["backend"], "query_expression": r["src"], "implementation": canon_impl(r["obs"]), "model": canon_model(r["model"]), "spec_on_implementation": r["spec"]})
+        if "err" in r["obs"] and "err" in r["model"]:
+            ctx.count("refusal-class-" + ("agrees" if r["obs"]["err"] == r["model"]["err"] else "differs"))
         report(ctx, r)
         if canon_model(r["model"]) != canon_impl(r["obs"]):
             ctx.disagreement("translation of a scalar expression: model tr vs apply_ast_transformations+write_cpp_files", {"backend": r["backend"], "src": r["src"], "expr": r["expr"]},
